@@ -105,6 +105,7 @@ func c13classify(err error) int {
 }
 
 type c13World struct {
+	selAccts []int // selectors of the disputed reporter and of the fee payers that are reporters
 	t   *testing.T
 	s   *setup.SharedSetup
 	r   *rand.Rand
@@ -491,6 +492,7 @@ func (w *c13World) makeReporter(i int, stakes []int64, selectors []int64, tag st
 	}
 	for k, st := range selectors {
 		j := w.newAcct(fmt.Sprintf("%s.sel%d", tag, k), 0)
+		w.selAccts = append(w.selAccts, j)
 		w.delegate(j, k+1, st)
 		if _, err := w.rms.SelectReporter(w.ctx, &reportertypes.MsgSelectReporter{SelectorAddress: w.accts[j].String(), ReporterAddress: w.accts[i].String()}); err != nil {
 			w.t.Fatal(err)
@@ -545,6 +547,8 @@ func newC13World(t *testing.T, r *rand.Rand, p c13Plan) *c13World {
 	w.fund(team, p.teamFunds)
 	w.team = w.addAcct(team, "team")
 	w.voters = append(w.voters, w.team, w.reporter)
+	// selectors vote too (before or after their reporter: their stake must not count twice in the reward shares)
+	w.voters = append(w.voters, w.selAccts...)
 
 	// tips (users group): payers and tippers
 	tipAt := func(i int, amt int64) {
